@@ -192,6 +192,10 @@ def no_state(ctx: Context) -> None:
         for d in f.node.decorator_list:
             nm = (dotted(d) or (dotted(d.func) if isinstance(d, ast.Call) else "") or "").split(".")[-1]
             if nm in ("lru_cache", "cache"):
+                from ..util import is_pure_cached_function
+                if is_pure_cached_function(prog, f):
+                    ctx.ok("R5.no-state", f"{f.name}:pure-cache:{nm}", f"@{nm} on a closed function whose result no caller writes to: not observable")
+                    continue
                 ctx.fail("R5.no-state", f"{f.name}:decorator:{nm}", f"@{nm} on {f.name}: results are cached across calls", f, d)
     ctx.floor("R5", "functions of utils/time_series.py", n, 6)
     # process-wide numpy error mode: a helper that switches it and does not restore it on an exceptional exit makes later calls (the moment summary on a
